@@ -223,6 +223,11 @@ Definition imaging_apply_mask {A} (zero : A) (data noise : list (list A)) (mask 
   | None => Ok ((d, mask), (n, mask))
   end)).
 
+(* AbstractDataset.trimmed_after_convolution_from(kernel_shape): data and noise map are trimmed one after the other *)
+Definition dataset_trimmed {A} (zero : A) (dn : arr2d A * arr2d A) (k : Z * Z) : res (arr2d A * arr2d A) :=
+  bind (trimmed_after_convolution_from zero (fst dn) k) (fun d =>
+  bind (trimmed_after_convolution_from zero (snd dn) k) (fun n => Ok (d, n))).
+
 (* ------------------------------------------------------------------ scaled coordinates (NumOps) *)
 Section Coords.
   Context {O : NumOps}.
@@ -327,6 +332,9 @@ Inductive case :=
 | KZoom (a : a2) (buffer : Z) (out : res zarr)
 | KApplyMask (data noise : zarr) (m : barr) (k : option (Z * Z)) (g : qgeom)
              (out : res (barr * (list Z * list Z) * list (Q * Q)))
+  (* Imaging.apply_mask(mask) then .trimmed_after_convolution_from(k): mask, native data, native noise map, slim grid *)
+| KApplyMaskTrim (data noise : zarr) (m : barr) (k : Z * Z) (g : qgeom)
+                 (out : res (barr * (zarr * zarr) * list (Q * Q)))
   (* Mask2D.resized_from(rs, pad_value=1) then Grid2D.from_mask *)
 | KResizeCoords (m : barr) (rs : Z * Z) (g : qgeom) (out : res (barr * list (Q * Q))).
 
@@ -339,6 +347,7 @@ Definition reg_eqb (a b : Z * Z * Z * Z) : bool :=
   (a0 =? b0) && (a1 =? b1) && (a2 =? b2) && (a3 =? b3).
 Definition am_eqb := prod_eqb (prod_eqb barr_eqb (prod_eqb (list_eqb Z.eqb) (list_eqb Z.eqb))) (list_eqb qq_eqb).
 Definition mc_eqb := prod_eqb barr_eqb (list_eqb qq_eqb).
+Definition amt_eqb := prod_eqb (prod_eqb barr_eqb (prod_eqb zarr_eqb zarr_eqb)) (list_eqb qq_eqb).
 
 Definition shape2 {B} (m : list (list B)) : Z * Z := (nrows m, ncols m).
 
@@ -364,6 +373,12 @@ Definition agree (k : case) : bool :=
       res_eqb am_eqb
         (bind (imaging_apply_mask 0 data noise m k) (fun '(d, n) =>
            Ok (snd d, (slim_of 0 (fst d) (snd d), slim_of 0 (fst n) (snd n)), @grid_slim_via_mask QOps (snd d) g)))
+        out
+  | KApplyMaskTrim data noise m k g out =>
+      res_eqb amt_eqb
+        (bind (imaging_apply_mask 0 data noise m (Some k)) (fun dn =>
+         bind (dataset_trimmed 0 dn k) (fun '(d, n) =>
+           Ok (snd d, (fst d, fst n), @grid_slim_via_mask QOps (snd d) g))))
         out
   | KResizeCoords m rs g out =>
       res_eqb mc_eqb (bind (mask_resized_from m rs 1) (fun m' => Ok (m', @grid_slim_via_mask QOps m' g))) out
@@ -438,6 +453,17 @@ Definition spec_ok (k : case) : bool :=
              && barr_eqb m' (resize_spec true m (nrows m') (ncols m'))
              && ge2 (shape2 m') (shape2 m) && same_parity (shape2 m') (shape2 m)
              && match k with Some k' => footprint_inside m' k' | None => true end
+         | Raise _ => false
+         end
+  | KApplyMaskTrim data noise m k g out =>
+      (* inputs that get padded (an unmasked pixel's footprint leaves the frame): the trim gives everything back *)
+      negb (proper data && proper noise && proper m && shape_eqb data m && shape_eqb noise m && odd_kernel k
+            && negb (footprint_inside m k))
+      || match out with
+         | Ok (m', (d', n'), gr) =>
+             barr_eqb m' m && zarr_eqb d' (zip_mask 0 data m) && zarr_eqb n' (zip_mask 0 noise m)
+             && list_eqb qq_eqb gr (map (fun p => @pixel_centre_spec QOps (nrows m) (ncols m) g (fst p) (snd p))
+                                        (unmasked_coords m))
          | Raise _ => false
          end
   | KResizeCoords m rs g out =>
